@@ -278,14 +278,14 @@ PROPS = {
     "C12": {
         "facts": ['poll_sites_covered'],
         "nt_rule": "cancelled",
-        "level": "proof", "module": "Resolvo.Props.C12", "imports": ["Resolvo.MDet.LogSpec"],
-        "theorems": ["Resolvo.C12.cancelled_faithful", "Resolvo.C12.fired_poll_cancels", "Resolvo.C12.every_request_polled", "Resolvo.C12.history_requests_polled",
+        "level": "proof", "module": "Resolvo.Props.C12", "imports": ["Resolvo.MDet.LogSpec", "Resolvo.MDet.GhostSpec"],
+        "theorems": ["Resolvo.C12.cancelled_faithful", "Resolvo.C12.cancelled_faithful_log", "Resolvo.MDet.history_ghost", "Resolvo.MDet.solveRun_ghost", "Resolvo.C12.fired_poll_cancels", "Resolvo.C12.every_request_polled", "Resolvo.C12.history_requests_polled",
                      "Resolvo.MDet.solveRun_chunk", "Resolvo.MDet.logspec_solve", "Resolvo.MDet.logspec_encode", "Resolvo.MDet.logspec_propagate", "Resolvo.MDet.logspec_bind",
                      "Resolvo.C12.poll_fires", "Resolvo.C12.poll_transparent", "Resolvo.C12.no_deps_request_after_signal", "Resolvo.C12.no_cands_request_after_signal"],
         "families": [("cancel", {"quick": 8000, "thorough": 150000}), ("cancel-async", {"quick": 6000, "thorough": 100000}), ("reuse-async", {"quick": 4000, "thorough": 80000})],
         "explanation": "PROVED (Lean, run level, for every universe / problem / fuel / solver state - any cancellation plan, warm or cold cache, synchronous provider or asynchronous provider under any completion order - and any history of solves): the entries a solve of the model adds to the provider call log form a chunk (MDet/LogSpec.lean: a relational Hoare logic over the model's monad, closed under sequencing, loops with fuel, for-loops with early exit; one lemma per function of State/Encode/Async/Solve, ~70 functions) such that "
                        "(cancelled_faithful) if solve ends Cancelled(v), the newest log entry is a poll that returned a value, v is the value of that very poll and no other poll of the solve returned one - nothing is started or even logged after cancellation was observed; (fired_poll_cancels) if any poll returned a value the solve ends Cancelled with it - never a solution or a conflict instead; (every_request_polled / history_requests_polled) every get_candidates / get_dependencies request is directly preceded by a poll that returned nothing. Step level: poll_fires, poll_transparent, no_*_request_after_signal. "
-                       "TIE: the structured log the theorems speak about renders to the model's call log (checked on every case, tag mdet-ghost), which is compared for exact equality - every poll, request and answer marker in order, result and cancellation value - with the real solver's log under cancellation plans drawn from the uncancelled run (signal up at poll k for every k incl. never; signal raised while provider request j is served; persistent and transient), sync and with requests in flight under FIFO/LIFO/random completion orders; the list of poll sites in the source is a decide-checked obligation (poll_sites_covered). "
+                       "TIE: the structured log the theorems speak about renders to the model's call log - proved (history_ghost: the twin relation is maintained by every function of the model, sync and async; cancelled_faithful_log restates the theorem on the call log itself) and re-checked on every case (tag mdet-ghost) - which is compared for exact equality - every poll, request and answer marker in order, result and cancellation value - with the real solver's log under cancellation plans drawn from the uncancelled run (signal up at poll k for every k incl. never; signal raised while provider request j is served; persistent and transient), sync and with requests in flight under FIFO/LIFO/random completion orders; the list of poll sites in the source is a decide-checked obligation (poll_sites_covered). "
                        "ORACLES on the implementation's own log: observed signal => Cancelled with that value, no request after observation, no request after the signal went up. NOT PROVED: 'if it never fires, polling has no effect on the result' as a theorem (the model's decisions never read the poll counter; covered by the exact correspondence of uncancelled runs).",
     },
     "C14": {
